@@ -10,8 +10,8 @@ import (
 
 // Adversarial universes (DESIGN 2.3).
 var (
-	Keys    = [][]byte{[]byte("a"), {'a', 0}, {'a', 0, 0}, []byte("ab"), []byte("b"), {0}, {0xff}, {'a', 0xff}}
-	Quals   = [][]byte{{}, []byte("a"), []byte("b"), {0}, {'a', 0xff}}
+	Keys    = [][]byte{[]byte("a"), {'a', 0}, {'a', 0, 0}, []byte("ab"), []byte("b"), {0}, {0xff}, {'a', 0xff}, {'a', '\n'}}
+	Quals   = [][]byte{{}, []byte("a"), []byte("b"), {0}, {'a', 0xff}, {'\n'}}
 	Fams    = []string{"f", "g"}
 	BadFam  = "h"
 	MaxTS   = int64(math.MaxInt64 - math.MaxInt64%1000)
@@ -29,7 +29,7 @@ func i64(v int64) []byte {
 	return b
 }
 
-var Values = [][]byte{{}, []byte("v"), []byte("w"), []byte("vw"), {0}, {0xff}, i64(0), i64(1), i64(-1), i64(math.MaxInt64), i64(math.MinInt64), []byte("1234567"), []byte("123456789")}
+var Values = [][]byte{{}, []byte("v"), []byte("w"), []byte("vw"), {0}, {0xff}, i64(0), i64(1), i64(-1), i64(math.MaxInt64), i64(math.MinInt64), []byte("1234567"), []byte("123456789"), []byte("v\nw")}
 
 // Profile weights the op kinds of a random program.
 type Profile struct {
@@ -254,7 +254,7 @@ func (g *Gen) Rx(ascii bool) *Rx {
 				continue
 			}
 		}
-		return &Rx{Re: re}
+		return &Rx{Re: re, Plain: g.R.Chance(1, 2)}
 	}
 }
 
@@ -385,6 +385,10 @@ func (g *Gen) ReadOp(table string) *Op {
 	}
 	if g.R.Chance(g.P.Filters, 100) {
 		o.Filter = g.FilterTree(2)
+	} else if len(o.Ranges) > 0 && g.R.Chance(1, 6) {
+		// a request is validated as a whole whatever its filter promises: the row set next to filters
+		// that make the scan trivial (nothing, everything, one cell)
+		o.Filter = core.Pick(g.R, []*Filter{{Kind: "block", Flag: true}, {Kind: "pass", Flag: true}, {Kind: "rowlim", N: 0}, {Kind: "rowlim", N: 1}, {Kind: "strip"}})
 	}
 	return o
 }
